@@ -274,3 +274,37 @@ Theorem upstream_bbox_nonempty_same_srs :
     (w_srs src = [] \/ find (fun s => srs_eq (q_srs q) s) (w_srs src) <> None) ->
     proper (r_bbox r) = true.
 Proof. exact request_bbox_proper_same_srs. Qed.
+
+(* ---- a layer that stands for several sources honours the configuration of every one of them (with
+   combined_request_srs_supported_by_every_member and combined_layers_keep_contract) *)
+(* format: an entry that every member lists under the same string *)
+Theorem combined_request_format_supported_by_every_member :
+  forall (T : srs -> srs -> bbox -> option bbox) (kn kd : Z) (GI GC : Z -> bbox -> bool)
+         (first : wms_source) (rest : list (bool * wms_source)) (q : query)
+         (e : wms_source) (ms : list wms_source) (r : request) (m : wms_source),
+    In (e, ms) (combine_layers kn kd first rest q) ->
+    wms_get_map T kn kd GI GC e q = Request r -> w_fmts e <> [] -> In m ms ->
+    exists fe fm, In fe (w_fmts e) /\ In fm (w_fmts m) /\ f_id fe = f_id fm /\
+                  (r_fmt r = fe \/ fmt_match (r_fmt r) fe = true).
+Proof. exact combined_request_format_of_members. Qed.
+
+(* dimensions: only those that every member is configured to forward *)
+Theorem combined_request_dimensions_configured_by_every_member :
+  forall (T : srs -> srs -> bbox -> option bbox) (kn kd : Z) (GI GC : Z -> bbox -> bool)
+         (first : wms_source) (rest : list (bool * wms_source)) (q : query)
+         (e : wms_source) (ms : list wms_source) (r : request) (m : wms_source) (d : dim),
+    In (e, ms) (combine_layers kn kd first rest q) ->
+    wms_get_map T kn kd GI GC e q = Request r -> In m ms -> In d (r_fwd r) ->
+    In d (q_dims q) /\ In (d_lower d) (w_fwd m).
+Proof. exact combined_request_dims_of_members. Qed.
+
+(* coverage: the layer has the coverage of each member and is not requested when that does not intersect the query *)
+Theorem combined_not_contacted_outside_any_member_coverage :
+  forall (T : srs -> srs -> bbox -> option bbox) (kn kd : Z) (GI GC : Z -> bbox -> bool)
+         (first : wms_source) (rest : list (bool * wms_source)) (q : query)
+         (e : wms_source) (ms : list wms_source) (m : wms_source) (cb : bbox) (cs : srs),
+    In (e, ms) (combine_layers kn kd first rest q) -> In m ms -> w_cov m = Some (cb, cs) ->
+    exists cs', w_cov e = Some (cb, cs') /\ srs_eq cs' cs = true /\ w_geom e = w_geom m /\
+      ((forall b, to_srs T (q_srs q) cs' (q_bbox q) = Some b -> cov_intersects GI (w_geom e) cb b = false) ->
+       forall r, wms_get_map T kn kd GI GC e q <> Request r).
+Proof. exact combined_not_contacted_outside_member_coverage. Qed.
